@@ -194,7 +194,12 @@ func Init() {
 	// sfold is what the sync agent runs for a "fold" (coalesce) request; a marker file in the agent's
 	// working directory (the replica directory) makes it fail the way a full disk or a killed child does
 	reexec.Register("sfold", func() {
-		if _, err := os.Stat(".verif-fold-fault"); err == nil {
+		if b, err := os.ReadFile(".verif-fold-fault"); err == nil {
+			if strings.TrimSpace(string(b)) == "signal" {
+				// killed in the middle (the OOM killer, an operator): the agent then reports exit status -1
+				syscall.Kill(os.Getpid(), syscall.SIGKILL)
+				time.Sleep(time.Second)
+			}
 			os.Exit(1)
 		}
 		sfold.Main()
